@@ -13,7 +13,8 @@ PROGRAMS = [
     "listen to it\n",
     "say 1\nsay 2\nsay X\nsay 3\n",
 ]
-INPUTS = ["", "one\ntwo\nthree\n", "no newline at end", "\n\nblank lines\n\n", "ünï\nçödé\n", "a\r\nb\r\n", "x" * 40 + "\n" + "y" * 10]
+INPUTS = ["", "one\ntwo\nthree\n", "no newline at end", "\n\nblank lines\n\n", "ünï\nçödé\n", "a\r\nb\r\n", "x" * 40 + "\n" + "y" * 10,
+          "trailing  \n\ttabs\t\n   \nnbsp\u00a0\n  lead\n", " \u2003\u3000\n\x0b\x0c\n\r\r\n"]
 
 
 def run(chk):
@@ -73,7 +74,7 @@ def run(chk):
                                       "write_budget": r["case"].get("wb"), "read_fault": r["case"].get("rf"), "impl": C.decode_hex_fields(r["impl"].get(prof, ""))[:300],
                                       "fault_free_output_hex": m["free_out"][:200]})
     record_exec(chk, recs, sig=lambda r: (hash(r["case"]["src"]) % 10007, r["case"].get("wb"), r["case"].get("rf"), outcome_class(r["impl"].get("debug", ""))))
-    chk.rule = ("say/listen programs (hand-written + generated) x input texts (empty, no final newline, blank lines, non-ASCII, CRLF, "
+    chk.rule = ("say/listen programs (hand-written + generated) x input texts (empty, no final newline, blank lines, non-ASCII, CRLF, leading/trailing spaces, tabs and Unicode spaces, "
                 "long lines) x every writer byte budget 0..total and every reader fault position 0..len+1 (sampled in quick); "
                 "oracles on the implementation: bytes received are exactly min(budget,total) and a prefix of the fault-free output, "
                 "a fault yields an I/O error, a budget never exceeded changes nothing; plus model = implementation on bytes and "
